@@ -1089,6 +1089,7 @@ def translate_all(src_root=None):
     out.append(translate_async_loop(src_root, known, known_params, known_recursive))
     out.append(translate_lifecycle(src_root, known))
     out.append(translate_schedule(src_root))
+    out.append(translate_snapshot(src_root, known, known_params, known_recursive))
     return "\n".join(out)
 
 
@@ -1853,6 +1854,132 @@ def translate_schedule(src_root):
     seg = ast.get_source_segment(text, fdef) or ""
     return (f"(* {fname} :: {func}  sha256[:16]={hashlib.sha256(seg.encode()).hexdigest()[:16]}: what is scheduled when a state is entered, in order *)\n"
             f"Definition schedule_skeleton : list seff := [{'; '.join(steps)}].\n")
+
+
+# ---------------------------------------------------------------------------------------------------------------------
+# SNAPSHOTS: what get_persisted_snapshot writes for the configuration and the history store, and how from_snapshot rebuilds
+# them (BaseInterpreter, shared by both engines).  Sliced:
+#   * from_snapshot must clear the active set, then run `for state_id in restore_ids:` whose body is `node = machine.get_state_by_id(
+#     state_id)`; `if node: <ADD> else: raise StateNotFoundError(...)`, with restore_ids the stored "configuration" (or the older
+#     "state_ids").  <ADD> - how one listed state is made active - is TRANSLATED (a function of the active set built so far and the
+#     node: `restore_add`); the loop around it is emitted as the fold it is (`restore_cfg_src`: None = StateNotFoundError).
+#   * the history loop must be `nodes = [get_state_by_id(nid) for nid in node_ids if get_state_by_id(nid)]; if nodes: store` over the
+#     items of the stored "history" (`restore_hist_src`: unknown ids are dropped, an entry that ends up empty is not stored).
+#   * context / status / output must be assigned from the snapshot's fields of the same name.
+#   * get_persisted_snapshot must return a dict display whose "configuration" is the sorted ids of the active set, whose "history"
+#     lists, per parent, the ids of the remembered nodes IN STORED ORDER, and whose status / context / output are the interpreter's
+#     (context deep-copied); emitted as the list of field readings `persist_fields`, interpreted in Model/TreeLib.v.
+PERSIST_FIELDS = {
+    "status": ("self.status", "PStatus"),
+    "context": ("copy.deepcopy(self.context)", "PContextCopy"),
+    "configuration": ("sorted((node.id for node in self._active_state_nodes))", "PConfigSortedIds"),
+    "output": ("self.output", "POutput"),
+    "history": ("{parent_id: [node.id for node in nodes] for parent_id, nodes in self._history.items()}", "PHistoryInOrder"),
+}
+RESTORE_ASSIGNS = {"interpreter.context": "snapshot['context']", "interpreter.status": "snapshot['status']",
+                   "interpreter.output": "snapshot.get('output')"}
+
+
+def translate_snapshot(src_root, known, known_params, known_recursive):
+    fname, cls = "base_interpreter.py", "BaseInterpreter"
+    out = []
+    # ---- persist
+    text, fdef = _find_method(src_root, fname, cls, "get_persisted_snapshot")
+    src = f"{fname}:get_persisted_snapshot"
+    rets = [n for n in ast.walk(fdef) if isinstance(n, ast.Return)]
+    dicts = [r for r in rets if isinstance(r.value, ast.Dict) and len(r.value.keys) > 2]
+    if len(dicts) != 1:
+        raise Untranslatable(f"{src}: expected exactly one returned snapshot dict")
+    d = dicts[0].value
+    fields = {}
+    for k, v in zip(d.keys, d.values):
+        if not (isinstance(k, ast.Constant) and isinstance(k.value, str)):
+            raise Untranslatable(f"{src}: snapshot key that is not a string constant")
+        fields[k.value] = ast.unparse(v)
+    emitted = []
+    for key, (want, ctor) in PERSIST_FIELDS.items():
+        if fields.get(key) != want:
+            raise Untranslatable(f"{src}: field {key!r} is written as `{fields.get(key)}`, expected `{want}`")
+        emitted.append(ctor)
+    seg = ast.get_source_segment(text, fdef) or ""
+    out.append(f"(* {fname} :: get_persisted_snapshot  sha256[:16]={hashlib.sha256(seg.encode()).hexdigest()[:16]}: what the snapshot records of the interpreter's own state *)")
+    out.append(f"Definition persist_fields : list pfield := [{'; '.join(emitted)}].\n")
+    # ---- restore
+    text, fdef = _find_method(src_root, fname, cls, "from_snapshot")
+    src = f"{fname}:from_snapshot"
+    body = [st for st in fdef.body if not _is_logger(st) and not (isinstance(st, ast.Expr) and isinstance(st.value, ast.Constant))]
+    texts = [ast.unparse(st) for st in body]
+    for tgt, val in RESTORE_ASSIGNS.items():
+        if f"{tgt} = {val}" not in texts:
+            raise Untranslatable(f"{src}: expected `{tgt} = {val}`")
+    for st in body:
+        for n in ast.walk(st):
+            if isinstance(n, (ast.Assign, ast.AugAssign)) and any(ast.unparse(t).split("[")[0] in RESTORE_ASSIGNS or ast.unparse(t).startswith("interpreter._active_state_nodes")
+                                                                   for t in (n.targets if isinstance(n, ast.Assign) else [n.target])):
+                if ast.unparse(n) not in [f"{t} = {v}" for t, v in RESTORE_ASSIGNS.items()]:
+                    raise Untranslatable(f"{src}:{n.lineno}: another assignment to a restored field: {ast.unparse(n)[:80]}")
+    try:
+        i_clear = texts.index("interpreter._active_state_nodes.clear()")
+        i_ids = texts.index("restore_ids = snapshot.get('configuration') or snapshot['state_ids']")
+    except ValueError:
+        raise Untranslatable(f"{src}: expected the active set to be cleared and `restore_ids = snapshot.get('configuration') or snapshot['state_ids']`")
+    loops = [(i, st) for i, st in enumerate(body) if isinstance(st, ast.For) and ast.unparse(st.iter) == "restore_ids"]
+    if len(loops) != 1 or not (i_clear < i_ids < loops[0][0]):
+        raise Untranslatable(f"{src}: expected one loop over restore_ids after the active set was cleared")
+    for i, st in enumerate(body):
+        if i != loops[0][0] and i > i_clear and "_active_state_nodes" in ast.unparse(st):
+            raise Untranslatable(f"{src}:{st.lineno}: the active set is touched outside the restore loop")
+    loop = loops[0][1]
+    lb = [x for x in loop.body if not _is_logger(x)]
+    ok = (not loop.orelse and ast.unparse(loop.target) == "state_id" and len(lb) == 2
+          and ast.unparse(lb[0]) == "node = machine.get_state_by_id(state_id)"
+          and isinstance(lb[1], ast.If) and ast.unparse(lb[1].test) == "node")
+    if ok:
+        els = [x for x in lb[1].orelse if not _is_logger(x)]
+        ok = len(els) == 1 and isinstance(els[0], ast.Raise) and ast.unparse(els[0].exc).startswith("StateNotFoundError(")
+    if not ok:
+        raise Untranslatable(f"{src}:{loop.lineno}: the restore loop is not `node = machine.get_state_by_id(state_id); if node: ... else: raise StateNotFoundError`")
+
+    class Sub(ast.NodeTransformer):
+        def visit_Attribute(self, n):
+            if ast.unparse(n) == "interpreter._active_state_nodes":
+                return ast.Name(id="active", ctx=ast.Load())
+            return self.generic_visit(n)
+    add = [Sub().visit(x) for x in lb[1].body if not _is_logger(x)]
+    for x in add:
+        for n in ast.walk(x):
+            if isinstance(n, (ast.Raise, ast.Return, ast.Break, ast.Continue)) or "interpreter" in ast.unparse(n) and isinstance(n, ast.Name):
+                raise Untranslatable(f"{src}:{getattr(n, 'lineno', '?')}: unexpected statement in the restore loop")
+    synth = ast.FunctionDef(name="from_snapshot", args=ast.arguments(posonlyargs=[], args=[ast.arg(arg="self"), ast.arg(arg="active"), ast.arg(arg="node")],
+                                                                      kwonlyargs=[], kw_defaults=[], defaults=[]),
+                            body=add + [ast.Return(value=ast.Name(id="active", ctx=ast.Load()))], decorator_list=[], lineno=fdef.lineno)
+    ast.fix_missing_locations(synth)
+    spec = dict(func="from_snapshot", coqname="restore_add", params=[("active", "nodes"), ("node", "node")], ret="nodes", needs=[])
+    fn = TreeFn(synth, spec, src, known)
+    fn.known_params = known_params
+    fn.known_recursive = known_recursive
+    seg = ast.get_source_segment(text, fdef) or ""
+    out.append(f"(* {fname} :: from_snapshot  sha256[:16]={hashlib.sha256(seg.encode()).hexdigest()[:16]}: how one listed state is made active; the loop over the stored configuration *)")
+    out.append(fn.translate())
+    out.append("Definition restore_cfg_src (m : machine) (ids : list nat) : option (list nat) :=\n"
+               "  fold_left (fun acc_ v_state_id => match acc_ with None => None | Some v_active =>\n"
+               "      match get_state_by_id m v_state_id with Some v_node => Some (restore_add m v_active v_node) | None => None end end)\n"
+               "    ids (Some (@nil nat)).\n")
+    # ---- history of the restored interpreter
+    hloops = [st for st in body if isinstance(st, ast.For) and ast.unparse(st.iter) == "(snapshot.get('history') or {}).items()"]
+    if len(hloops) != 1 or ast.unparse(hloops[0].target) != "(parent_id, node_ids)":
+        raise Untranslatable(f"{src}: expected one loop `for parent_id, node_ids in (snapshot.get('history') or {{}}).items()`")
+    hb = [ast.unparse(x) for x in hloops[0].body if not _is_logger(x)]
+    if hb != ["nodes = [machine.get_state_by_id(nid) for nid in node_ids if machine.get_state_by_id(nid)]",
+              "if nodes:\n    interpreter._history[parent_id] = nodes"]:
+        raise Untranslatable(f"{src}:{hloops[0].lineno}: the history loop changed: {hb}")
+    for st in body:
+        if st is not hloops[0] and "interpreter._history" in ast.unparse(st):
+            raise Untranslatable(f"{src}:{st.lineno}: the history store is touched outside its loop")
+    out.append("Definition restore_hist_src (m : machine) (h : list (nat * list nat)) : list (nat * list nat) :=\n"
+               "  fold_left (fun v_H e_ => let v_nodes := filter_some (get_state_by_id m) (snd e_) in\n"
+               "      if truthy_list v_nodes then hist_set v_H (fst e_) v_nodes else v_H) h (@nil (nat * list nat)).\n")
+    return "\n".join(out)
 
 
 def overriding_definitions(src_root=None):
